@@ -532,3 +532,103 @@ pub fn cases(o: &mut Outcome, rng: &mut Rng, thorough: bool) {
 fn jobs_n() -> usize {
     jobs().min(16)
 }
+
+/// Enumerated, seed-independent probes.  `OPTIN-FIX-*`: the reproductions of the defects repaired on the way (`fails`
+/// must stay false); the others: inputs known dirty on this tree (`fails` expected, known findings).
+pub fn probes(o: &mut Outcome) {
+    let fmt = |src: &str, cfg: &[(&str, &str)]| pool::format_here(&job(src.to_string(), cfg));
+    let parses_again = |r: &FmtOut, cfg: &[(&str, &str)]| -> bool {
+        let mut quiet: Vec<(&str, &str)> = cfg.to_vec();
+        quiet.push(("show_parse_errors", "false"));
+        let again = pool::format_here(&job(r.out.clone(), &quiet));
+        again.status == Status::Ok && !again.flags[1]
+    };
+    let toks_without = |s: &str, drop: &[&str]| -> Vec<String> { lex(s, true).into_iter().filter(|t| !drop.contains(&t.as_str())).collect() };
+    // repaired: the token lists of input and output agree up to the tokens the rewrite may change
+    let fixed: [(&str, &str, &[(&str, &str)], &[&str], &str); 9] = [
+        ("OPTIN-FIX-PAREN-ATTR", "fn f() {\n    let x = (#[attr] (a + b));\n}\n", &[("remove_nested_parens", "true")], &["(", ")"], "remove_nested_parens dropped the attribute of an inner parenthesised expression"),
+        ("OPTIN-FIX-WILDCARD-DOTDOT", "fn f() {\n    match x {\n        (a, .., _, _) => 1,\n    }\n}\n", &[("condense_wildcard_suffixes", "true")], &[], "condense_wildcard_suffixes wrote a second `..` into a tuple pattern"),
+        ("OPTIN-FIX-TRY-ARGS", "fn f() {\n    let a = try!(x, y);\n}\n", &[("use_try_shorthand", "true"), ("edition", "2015")], &[], "use_try_shorthand dropped the second argument of try!"),
+        ("OPTIN-FIX-TRY-JUXTAPOSED", "fn f() {\n    let a = try!(x y);\n}\n", &[("use_try_shorthand", "true"), ("edition", "2015")], &[], "use_try_shorthand dropped what followed the first expression of try!"),
+        ("OPTIN-FIX-TRY-PREC", "fn f() {\n    let a = (b + c)?;\n}\n", &[("use_try_shorthand", "true"), ("edition", "2015")], &[], "(control) a parenthesised operand of `?` keeps its parentheses"),
+        ("OPTIN-FIX-DOC-COMMENT-BEHIND", "#[doc = \" x\"] /* c */\nstruct S;\n", &[("normalize_doc_attributes", "true")], &[], "normalize_doc_attributes pulled a comment into the documentation text"),
+        ("OPTIN-FIX-FLOAT-BORROW-RANGE", "fn f() {\n    let a = &1.0 ..2.0;\n}\n", &[("float_literal_trailing_zero", "Always")], &[], "(control) a borrowed float in front of a range"),
+        ("OPTIN-FIX-VIS-IN", "pub(crate) fn f() {}\n", &[], &[], "(control) pub(crate) stays"),
+        ("OPTIN-FIX-EXTERN", "extern \"Rust\" fn f() {}\n", &[("force_explicit_abi", "false")], &[], "(control) a non-C ABI stays"),
+    ];
+    for (id, src, cfg, drop, what) in fixed {
+        let r = fmt(src, cfg);
+        let same = toks_without(src, drop) == toks_without(&r.out, drop);
+        let bad = r.status != Status::Ok || !same || !parses_again(&r, cfg);
+        o.probes.push(json!({"id": id, "fails": bad, "what": what, "detail": {"src": src, "out": r.out}}));
+    }
+    // repaired: conversions whose operand must come out whole
+    for (id, src, want) in [
+        ("OPTIN-FIX-TRY-SUM", "fn f() {\n    let a = try!(b + c);\n}\n", "(b + c)?"),
+        ("OPTIN-FIX-TRY-NEG", "fn f() {\n    let a = try!(-e);\n}\n", "(-e)?"),
+        ("OPTIN-FIX-TRY-CAST", "fn f() {\n    let a = try!(g as u8);\n}\n", "(g as u8)?"),
+        ("OPTIN-FIX-TRY-ATTR", "fn f() {\n    let a = try!(&n);\n}\n", "(&n)?"),
+    ] {
+        let cfg: &[(&str, &str)] = &[("use_try_shorthand", "true"), ("edition", "2015")];
+        let r = fmt(src, cfg);
+        let bad = r.status != Status::Ok || !r.out.contains(want) || !parses_again(&r, cfg);
+        o.probes.push(json!({"id": id, "fails": bad, "what": "use_try_shorthand let `?` bind to a part of the operand of try!", "detail": {"src": src, "out": r.out, "want": want}}));
+    }
+    // repaired: a float literal that ends in a dot in front of a dot
+    for (id, src, want) in [
+        ("OPTIN-FIX-FLOAT-RANGE-EXPR", "fn f() {\n    let a = &1.0..2.0;\n}\n", "&1. ..2."),
+        ("OPTIN-FIX-FLOAT-RANGE-PAT", "fn f() {\n    match x {\n        1.0..=2.0 => 1,\n        _ => 2,\n    }\n}\n", "1. ..=2."),
+        ("OPTIN-FIX-FLOAT-FIELD", "fn f() {\n    let a = 1.0.0;\n}\n", "(1.).0"),
+    ] {
+        let cfg: &[(&str, &str)] = &[("float_literal_trailing_zero", "Never")];
+        let r = fmt(src, cfg);
+        let bad = r.status != Status::Ok || !r.out.contains(want) || !parses_again(&r, cfg);
+        o.probes.push(json!({"id": id, "fails": bad, "what": "float_literal_trailing_zero=Never glued a dot onto a literal that ends in one", "detail": {"src": src, "out": r.out, "want": want}}));
+    }
+    // known dirty ------------------------------------------------------------------------------------------------
+    {
+        // OPTIN-ABI-ESCAPE: format_extern prints symbol_unescaped between quotes without escaping it
+        let src = "extern \"a\\\"b\" fn f() {}\n";
+        let cfg: &[(&str, &str)] = &[("force_explicit_abi", "true")];
+        let r = fmt(src, cfg);
+        let bad = r.status == Status::Ok && (lex(src, false) != lex(&r.out, false) || !parses_again(&r, cfg));
+        o.probes.push(json!({"id": "OPTIN-ABI-ESCAPE", "fails": bad, "what": "format_extern prints the unescaped ABI text between quotes: `extern \"a\\\"b\" fn f() {}` comes out as `extern \"a\"b\" fn f() {}`, which does not lex back (no ABI of the language needs an escape; the parser accepts any string literal)", "detail": {"src": src, "out": r.out}}));
+    }
+    {
+        // OPTIN-VIS-ROOT: the leading `::` of a restricted visibility's path is not printed
+        let src = "pub(in ::a) fn f() {}\n";
+        let cfg: &[(&str, &str)] = &[("edition", "2015")];
+        let r = fmt(src, cfg);
+        let bad = r.status == Status::Ok && toks_without(src, &["in"]) != toks_without(&r.out, &["in"]);
+        o.probes.push(json!({"id": "OPTIN-VIS-ROOT", "fails": bad, "what": "format_visibility skips the path root: `pub(in ::a)` is printed `pub(in a)` (the same module in the 2015 edition, where alone it is accepted; still a `::` token that the closed list does not name)", "detail": {"src": src, "out": r.out}}));
+    }
+    {
+        // OPTIN-DOC-TRAILING-LF / OPTIN-DOC-CR: str::lines() on the value of a doc attribute
+        let cfg: &[(&str, &str)] = &[("normalize_doc_attributes", "true")];
+        let src = "#[doc = \"a\\n\"]\nstruct S;\n";
+        let r = fmt(src, cfg);
+        let text: Vec<&str> = r.out.lines().take_while(|l| !l.starts_with("struct")).collect();
+        let a = run_model(&[format!("opt.docvalue {} {}", enc_str("a\n"), enc_str(&text.join("\n")))], 1).pop().unwrap_or_default();
+        o.probes.push(json!({"id": "OPTIN-DOC-TRAILING-LF", "fails": r.status == Status::Ok && a != "ok", "what": "normalize_doc_attributes: `#[doc = \"a\\n\"]` becomes `///a` — the last line feed of the documentation text is lost (`str::lines`); likewise `\\r\\n` inside the value becomes `\\n`", "detail": {"src": src, "out": r.out, "oracle": a}}));
+        let src = "#[doc = \"a\\rb\"]\nstruct S;\n";
+        let r = fmt(src, cfg);
+        let bad = r.status == Status::Ok && r.out.contains('\r') && !parses_again(&r, cfg);
+        o.probes.push(json!({"id": "OPTIN-DOC-CR", "fails": bad, "what": "normalize_doc_attributes: `#[doc = \"a\\rb\"]` becomes a `///` comment with a bare carriage return in it, which the lexer rejects", "detail": {"src": src, "out": r.out}}));
+    }
+    {
+        // OPTIN-TRY-STRUCT-COND: the macro's delimiters made a struct literal legal in a condition
+        let src = "fn f() {\n    if try!(S { a: 1 }) {}\n}\n";
+        let cfg: &[(&str, &str)] = &[("use_try_shorthand", "true"), ("edition", "2015")];
+        let r = fmt(src, cfg);
+        let bad = r.status == Status::Ok && r.out.contains("S { a: 1 }?") && !parses_again(&r, cfg);
+        o.probes.push(json!({"id": "OPTIN-TRY-STRUCT-COND", "fails": bad, "what": "use_try_shorthand: `if try!(S { a: 1 }) {}` becomes `if S { a: 1 }? {}`, where the struct literal is not allowed (the parentheses of the macro call made it legal); the operand's position is not known to convert_try_mac", "detail": {"src": src, "out": r.out}}));
+    }
+    {
+        // OPTIN-FIELD-MACRO-TT: `$x: $x` in a macro body with a tt fragment
+        let src = "macro_rules! m {\n    ($x:tt) => {\n        S { $x: $x }\n    };\n}\n";
+        let cfg: &[(&str, &str)] = &[("use_field_init_shorthand", "true")];
+        let r = fmt(src, cfg);
+        let bad = r.status == Status::Ok && r.out.contains("S { $x }");
+        o.probes.push(json!({"id": "OPTIN-FIELD-MACRO-TT", "fails": bad, "what": "use_field_init_shorthand inside a macro_rules body: `S { $x: $x }` becomes `S { $x }`, which no longer accepts a tuple index for a `tt` fragment (`m!(0)` expanded to `S { 0: 0 }`, now `S { 0 }`); the body is formatted with `$x` read as an identifier", "detail": {"src": src, "out": r.out}}));
+    }
+}
